@@ -427,7 +427,7 @@ class Events(Part):
 
     def describe(self, tier):
         return ('4-bus ring + chord, slack on bus 1, no dynamics: all multisets of <= 2 line toggles at t in '
-                '{0.2, 0.5}; island report after the run equals the components of the final in-service graph')
+                '{0.2, 0.5}, each made by a Toggle device or by a perturbation function raising TDS.custom_event; island report after the run equals the components of the final in-service graph')
 
     LINES = [(0, 1), (1, 2), (2, 3), (3, 0), (0, 2)]
 
@@ -455,6 +455,13 @@ class Events(Part):
         for r in range(1, kmax + 1):
             for c in itertools.combinations(ev, r):
                 out.append([list(x) for x in c])
+        # the same switchings made by a perturbation function that announces itself with TDS.custom_event (the documented
+        # way, cases/ieee14/pert.py), alone and mixed with Toggle devices: [line, time, 'pert']
+        for r in range(1, kmax + 1):
+            for c in itertools.combinations(ev, r):
+                for kinds in itertools.product(('toggle', 'pert'), repeat=r):
+                    if 'pert' in kinds:
+                        out.append([list(x) + [k] for x, k in zip(c, kinds)])
         return out
 
     def execute(self, case):
@@ -462,11 +469,25 @@ class Events(Part):
         self.cp.restore()
         out = Outcome()
         status = [1] * 5
-        for k, (l, t) in enumerate(case):
-            ss.Toggle.dev.v[k] = f'L{l}'
-            ss.Toggle.t.v[k] = t
-            ss.Toggle.u.v[k] = 1
+        perts = []
+        for k, ev in enumerate(case):
+            l, t = ev[0], ev[1]
+            if len(ev) > 2 and ev[2] == 'pert':
+                perts.append([l, t, False])
+            else:
+                ss.Toggle.dev.v[k] = f'L{l}'
+                ss.Toggle.t.v[k] = t
+                ss.Toggle.u.v[k] = 1
             status[l] = 1 - status[l]
+        if perts:
+            def pert(t, system):
+                for p in perts:
+                    if not p[2] and t >= p[1]:
+                        p[2] = True
+                        cur = system.Line.get('u', f'L{p[0]}', 'v')
+                        system.Line.alter('u', f'L{p[0]}', 1 - cur)
+                        system.TDS.custom_event = True
+            ss.TDS.callpert = pert
         ss.connectivity(info=False)      # normalise the island report left by the previous execution
         ss.TDS.config.tf = 0.7
         ss.TDS.config.tstep = 0.1
@@ -487,6 +508,9 @@ class Events(Part):
         live_status = [int(x) for x in ss.Line.u.v]
         got_iso = sorted(int(b) for b in ss.Bus.islanded_buses)
         got_sets = {frozenset(int(b) for b in s) for s in ss.Bus.island_sets}
+        if not ok:
+            out.bad('run_failed_after_switching', f'after switchings {case}: TDS.run returned {ok} ({ss.TDS.err_msg!r}); buses isolated '
+                    f'by a switching must be neutralised, not spoil convergence')
         if live_status == status and case:
             if got_iso != sorted(iso):
                 out.bad('isolated_after_event_wrong', f'after toggles {case}: islanded_buses={got_iso}, graph {iso}')
